@@ -314,6 +314,22 @@ def ref_decode(buf: bytes, info=None):
     return f"{id_},{flags} {';'.join(qs) or '-'} {rrs[0]} {rrs[1]} {rrs[2]}"
 
 
+def ref_questions(buf: bytes):
+    """(id, [(labels, type, class)]) of a message whose header and question section the specification reads, else None"""
+    try:
+        if len(buf) < 12: return None
+        id_, _, nq = struct.unpack_from("!HHH", buf, 0)
+        pos, qs = 12, []
+        for _ in range(nq):
+            labels, n = ref_name(buf, pos); pos += n
+            if pos + 4 > len(buf): return None
+            t, cl = struct.unpack_from("!HH", buf, pos); pos += 4
+            qs.append((labels, t, cl))
+        return id_, qs
+    except RefError:
+        return None
+
+
 def ref_view(buf: bytes) -> str:
     try:
         return "ok " + ref_decode(buf)
